@@ -9,7 +9,9 @@
 (***************************************************************************)
 EXTENDS Naturals, Sequences, Json, IOUtils, TLC
 Tr == ndJsonDeserialize(IOEnv.TRACE)
-CONSTANT AllowKF2    \* TRUE: the recorded known finding (sync burst completing a parked async job) is tolerated
+CONSTANT AllowKF2,   \* TRUE: the recorded known finding (sync burst completing a parked async job) is tolerated
+         JudgeSame   \* TRUE (C09): a direct call must equal the job; FALSE (C07, guarded walk: every object of the direct
+                     \* calls flush against inaccessible memory): only faults count - an "EntryFault" event has no action
 VARIABLE l
 
 SyncBurstOK(t) ==
@@ -25,7 +27,7 @@ Init == l = 1
 Next == /\ l <= Len(Tr) /\ l' = l + 1
         /\ LET t == Tr[l] IN
            \/ t.e = "SyncBurst" /\ SyncBurstOK(t)
-           \/ t.e = "Direct" /\ DirectOK(t)
+           \/ t.e = "Direct" /\ (JudgeSame => DirectOK(t))
            \/ t.e = "MixSyncAsync" /\ MixOK(t)
            \/ t.e = "EntryDone"
 Spec == Init /\ [][Next]_l
